@@ -13,7 +13,7 @@ PYTHONPATH=$base /venv/bin/python $out/demo.py >/dev/null 2>&1; without=$?
 echo "tests: $tests | patch applies to HEAD: $applies | demo exit with change: $with, without: $without"
 res=""
 for p in "$@"; do
-  o=$(PENMAN_SRC=$wt /verif/check $p --tier quick 2>&1 | grep "^VIOLATION\|^$p " | cut -c1-260)
+  o=$(PENMAN_SRC=$wt /verif/check $p --tier quick 2>&1 | grep "^VIOLATION\|^MACHINERY\|^$p " | cut -c1-260)
   n=$(echo "$o" | grep -c "^VIOLATION")
   echo "$o" | sed "s/^/   [$p] /"
   res="$res $p:$n"
